@@ -236,7 +236,9 @@ Chk(P, i, env, exp) ==
          IF n.op \in {"and", "or"} THEN
            LET l == Chk(P, n.l, env, Bool)
                r == Chk(P, n.r, env, Bool)
-           IN IF ~Ok(l) \/ ~Ok(r) THEN Bad ELSE R(Unify(P, exp, Bool), l.d \/ r.d)
+           (* the right operand is skipped when the left one decides: only the left   *)
+           (* operand can make the whole expression diverge                          *)
+           IN IF ~Ok(l) \/ ~Ok(r) THEN Bad ELSE R(Unify(P, exp, Bool), l.d)
          ELSE IF n.op \in {"eq", "ne"} THEN
            LET l == Chk(P, n.l, env, AnyT) IN
            IF ~Ok(l) THEN Bad ELSE
